@@ -14,8 +14,10 @@ import (
 	"math"
 	"os"
 	"reflect"
+	"runtime"
 	"sort"
 	"strconv"
+	"time"
 )
 
 // Tag universe bits for Opts.Tags / Opts.Leaf.
@@ -87,6 +89,7 @@ type Replay struct {
 	Reached  map[string]bool
 	Mismatch []string
 	frozen   []frozenRec
+	baseGoroutines int
 }
 
 type frozenRec struct {
@@ -112,7 +115,7 @@ func Load(path string) (*cexFile, error) {
 
 // Begin starts a native replay of c.
 func Begin(c *cexFile) *Replay {
-	cur = &Replay{cex: c, used: map[int]bool{}, Reached: map[string]bool{}}
+	cur = &Replay{cex: c, used: map[int]bool{}, Reached: map[string]bool{}, baseGoroutines: runtime.NumGoroutine()}
 	return cur
 }
 
@@ -286,6 +289,24 @@ func Note(name string)                 {}
 
 // MapOrderInsertion (intrinsic): iterate maps in insertion order only (reference runs).
 func MapOrderInsertion(on bool) {}
+
+// Quiesce (intrinsic): lets every goroutine that can run do so and returns how many are still blocked.
+// Natively: gives the scheduler a moment and reports 0 (goroutine leaks are observed symbolically).
+func Quiesce() int {
+	// natively: goroutines alive beyond those that existed when the replay began
+	n := 0
+	for i := 0; i < 10; i++ {
+		time.Sleep(10 * time.Millisecond)
+		n = runtime.NumGoroutine() - cur.baseGoroutines
+		if n <= 0 {
+			return 0
+		}
+	}
+	return n
+}
+
+// Yield (intrinsic): a scheduling point.
+func Yield() {}
 
 // AtomicOps (intrinsic): number of sync/atomic pointer operations executed so far (-1 natively: unknown).
 func AtomicOps() int { return -1 }
